@@ -473,9 +473,8 @@ def plan_C08(c):
     g_bounds(c, ['eq', 'ne', 'lt', 'le', 'gt', 'ge', 'cmp', 'partial_cmp', 'min', 'max'], kind='cmp')
     v(c, 'c08', 5000, 200000)
     v(c, 'c08a', 2000, 60000)
-    if c.tier != 'quick':
-        # hand-written ArchivedDecimal of the packed layout
-        v(c, 'c08a', 2000, 60000, features=('packed', 'rkyv'), label='packed')
+    # hand-written ArchivedDecimal (Archive / Deserialize / CheckBytes) of the packed layout
+    v(c, 'c08a', 1500, 60000, features=('packed', 'rkyv'), label='packed')
 
 
 def plan_C09(c):
@@ -596,6 +595,7 @@ def plan_C15(c):
 def plan_C16(c):
     c.mc('MC_Knuth', cfg='MC_Knuth_ok' if c.tier == 'quick' else 'MC_Knuth_ok_w4')
     c.mc('MC_Knuth', cfg='MC_Knuth_f1', expect='violation')     # the sign fix-up of finding F1 must be rejected
+    c.mc('MC_Knuth', cfg='MC_Knuth_mul_carry', expect='violation')      # u128_mul_u128 without the middle carry must be rejected
     g_maxquot(c, 'wide')
     g_knuth(c, 'wide')
     v(c, 'c16', 4000, 120000)
@@ -740,12 +740,12 @@ def pair_builds(c, all_traces, tag):
 def plan_C20(c):
     """the same seeded driver in several build configurations: every build's trace must be accepted by the same
     Trace.tla, and `pair` events require identical observables build by build"""
-    n = size(c, 5200, 60000)
+    n = size(c, 6400, 60000)
     chunks = 6 if c.tier == 'quick' else 16
-    builds = [('dev', ('rkyv',)), ('release', ('rkyv',))]
+    builds = [('dev', ('rkyv',)), ('release', ('rkyv',)), ('dev', ('packed', 'rkyv'))]
     if c.tier != 'quick':
         builds += [('relchk', ('rkyv',)), ('devnochk', ('rkyv',)),
-                   ('dev', ('packed', 'rkyv')), ('release', ('packed', 'rkyv')), ('relchk', ('packed', 'rkyv')), ('devnochk', ('packed', 'rkyv'))]
+                   ('release', ('packed', 'rkyv')), ('relchk', ('packed', 'rkyv')), ('devnochk', ('packed', 'rkyv'))]
     all_traces = {}
     for prof, feats in builds:
         label = prof + ('_packed' if 'packed' in feats else '')
